@@ -235,11 +235,18 @@ Inductive op :=
     (** read hit: guard found, not locked; readers++ ; visit *)
 | OReadDone (sid w : Z)
     (** bank stage finished a read hit: guard readers > 0; readers-- *)
-| OFinishWrite (sid w : Z)  (** bank stage: guard locked and valid *)
-| OFinishFill (sid w : Z)   (** bank stage: guard locked and valid *)
+| OFinishWrite (sid w : Z)
+    (** write-back bank stage (finalizeWriteHit): guard locked; valid := true, dirty, unlocked *)
+| OFinishFill (sid w : Z)
+    (** write-back bank stage (finalizeBankWriteFetched): guard locked; valid := true, unlocked *)
+| OUnlock (sid w : Z)
+    (** write-through bank stage (finalizeWriteTrans / finalizeWriteFetchedTrans): unlocked, validity untouched *)
 | OEvictHit (pid tag : N)
     (** write-evict hit: guard found, not locked, no readers; valid := false *)
-| OInvalidate (addrs : list N) (pid : N)   (** control: Invalidate with filter *)
+| OInvalidate (addrs : list N) (pid : N)
+    (** write-back control Invalidate with filter, after the fix: locked blocks are skipped *)
+| OInvalidateAll (addrs : list N) (pid : N)
+    (** write-through control Invalidate (and the write-back one BEFORE the fix): locked blocks too *)
 | OMarkClean (sid w : Z)                   (** flusher finalisation *)
 | OReset.
 
@@ -251,8 +258,9 @@ Definition inv_match (bs : N) (addrs : list N) (pid : N) (b : block) : bool :=
    | _ => existsb (fun a => (a / bs * bs =? b_tag b)%N) addrs
    end).
 
-Definition invalidate_set (bs : N) (addrs : list N) (pid : N) (s : cset) : cset :=
-  S (map (fun b => if inv_match bs addrs pid b then set_valid false b else b) (s_blocks s)) (s_lru s).
+Definition invalidate_set (skip_locked : bool) (bs : N) (addrs : list N) (pid : N) (s : cset) : cset :=
+  S (map (fun b => if inv_match bs addrs pid b && negb (skip_locked && b_locked b) then set_valid false b else b)
+         (s_blocks s)) (s_lru s).
 
 (** one operation; a failed guard (or an index panic) leaves the state as it is
     — in the caches the transaction stalls and retries. *)
@@ -263,7 +271,8 @@ Definition step (ns ways bs : N) (d : dir) (o : op) : dir :=
       | Some (_, _, false), Some (sid, w) =>
           match get_block d sid w with
           | Some v =>
-              if busy v || negb ((tag mod bs =? 0)%N) then d
+              (* evict: only a valid dirty victim is evicted (needEviction) *)
+              if busy v || negb ((tag mod bs =? 0)%N) || (evict && negb (b_valid v && b_dirty v)) then d
               else
                 let d1 := upd_block d sid w
                             (if evict then set_tag_evict pid tag else set_tag pid tag true) in
@@ -316,14 +325,15 @@ Definition step (ns ways bs : N) (d : dir) (o : op) : dir :=
       end
   | OFinishWrite sid w =>
       match get_block d sid w with
-      | Some b => if b_locked b && b_valid b then upd_block d sid w finish_write else d
+      | Some b => if b_locked b then upd_block d sid w finish_write else d
       | None => d
       end
   | OFinishFill sid w =>
       match get_block d sid w with
-      | Some b => if b_locked b && b_valid b then upd_block d sid w finish_fill else d
+      | Some b => if b_locked b then upd_block d sid w finish_fill else d
       | None => d
       end
+  | OUnlock sid w => upd_block d sid w (set_locked false)
   | OEvictHit pid tag =>
       match lookup d ns bs pid tag with
       | Some (sid, w, true) =>
@@ -333,7 +343,8 @@ Definition step (ns ways bs : N) (d : dir) (o : op) : dir :=
           end
       | _ => d
       end
-  | OInvalidate addrs pid => map (invalidate_set bs addrs pid) d
+  | OInvalidate addrs pid => map (invalidate_set true bs addrs pid) d
+  | OInvalidateAll addrs pid => map (invalidate_set false bs addrs pid) d
   | OMarkClean sid w => upd_block d sid w (set_dirty false)
   | OReset => reset ns ways bs
   end.
